@@ -31,7 +31,7 @@ def oracle(ctx, seeds=None):
         whole = False
         if kind == 'refined':
             if i % 2 == 0:
-                md['n'] = n = (md['a'] + md['b']) * int(rng.integers(1, 8)); whole = True
+                md['n'] = n = (md['ab'][0] + md['ab'][1]) * int(rng.integers(1, 8)); whole = True
             if i % 11 == 0:
                 md['ratio'] = float(10.0 ** rng.uniform(-1, 1))
         ok, msh = impl.guarded(cfg1d.make_mesh, md)
@@ -64,7 +64,7 @@ def oracle(ctx, seeds=None):
             if not ok_ or not abs(float(v_) - abs(c)) <= 1e-13 * abs(c):
                 bad(nm_, "%s of the constant %r is %r (expected %r)" % (nm_, c, v_, abs(c)))
         if kind == 'refined':
-            nc1 = int((n * md['a']) / (md['a'] + md['b'])); nc2 = n - nc1
+            nc1 = (n * md['ab'][0]) // (md['ab'][0] + md['ab'][1]); nc2 = n - nc1    # integer part of the requested proportion
             d = np.diff(xf)
             if nc1 > 1 and np.max(np.abs(d[:nc1] - d[0])) > 1e-12 * L:
                 bad('zone1', "first zone not uniform")
@@ -75,11 +75,13 @@ def oracle(ctx, seeds=None):
     # ---- refined meshes: every whole-number zone proportion with small integer (or half-integer) proportions
     step = 1 if ctx.tier == 'thorough' else 3
     cnt = 0
-    for a2 in range(1, 25):
-        for b2 in range(1, 25):
+    for a2, b2, dec in [(a2, b2, dec) for dec in (False, True) for a2 in range(1, 25) for b2 in range(1, 25)]:
+        if True:
             a_, b_ = a2 / 2.0, b2 / 2.0
             if a2 % 2 == 0 and b2 % 2 == 0:
                 a_, b_ = int(a_), int(b_)
+            if dec:                            # decimal proportions 0.1 .. 2.4: the float quotient n*a/(a+b) is not exact
+                a_, b_ = a2 / 10.0, b2 / 10.0
             for m in range(1 + (a2 * 7 + b2) % step, 400 // (a2 + b2) + 1, step):
                 n = m * (a2 + b2)            # n * a / (a + b) = m * a2 is a whole number
                 if n > 220:
